@@ -80,6 +80,18 @@ def families(tier):
         out.append(dict(prop='C11', family='c11.isolation_typed_event', id=f'c11/typed-pos{pos}-{kind}-{typ}-p{int(par)}', cfg=cfg,
                         params=dict(pos=pos, kind=kind, typ=typ, place='root', ebus='A', epat='T'),
                         scn=dict(buses={'A': dict(parallel=par)}, order=['A'], handlers=hs, main=main, actors=[], forwards=[], settle=3.0)))
+    # a handler of a child has ALREADY failed when the processing of that child is interrupted (the awaiting parent handler times out while a sibling of the failed
+    # handler is still running): the recorded error of the failed handler stays what it raised
+    for typ, kind, par_c in itertools.product(['ValueError', 'Custom', 'Falsy'], ['raise', 'pause_raise', 'ret_exc'], (False, True)):
+        hk, mk = KINDS[kind]
+        hs = [dict(bus='A', pat='P', name='hp', prog=[('disp', 'B', 'C', 'await'), ('ret', 'p')]),
+              dict(bus='B', pat='C', name='h0', prog=mk(typ), kind=hk), dict(bus='B', pat='C', name='h1', prog=[('pause',), ('pause',), ('ret', 1)]),
+              dict(bus='A', pat='X', name='hxA', prog=[('ret', 0)]), dict(bus='B', pat='X', name='hxB', prog=[('ret', 0)])]
+        main = [('disp', 'A', 'P', 'late', {'timeout': 0.5}), ('disp', 'B', 'X', 'ff'), ('await', 'P'), ('pause',), ('result', 'C<hp:P', False), ('result', 'C<hp:P', True)]
+        for order in (['A', 'B'], ['B', 'A']):
+            out.append(dict(prop='C11', family='c11.failed_then_interrupted', id=f'c11/intr-{kind}-{typ}-p{int(par_c)}-o{"".join(order)}', cfg=dict(cfg, window=0.8, max_targets=2),
+                            params=dict(pos=0, kind=kind, typ=typ, place='child_aw', ebus='B', epat='C', interrupted=True),
+                            scn=dict(buses={'A': {}, 'B': dict(parallel=par_c)}, order=order, handlers=hs, main=main, actors=[], forwards=[], settle=3.0)))
     # on a parallel_handlers bus: a handler fails while its sibling is awaiting a child (on a serial second bus) whose second handler has not started yet
     for typ, kind in itertools.product(['ValueError', 'TimeoutError', 'Chained', 'CancelledError'], ['raise', 'pause_raise']):
         hk, mk = KINDS[kind]
@@ -125,10 +137,17 @@ def oracle(spec, res):
         for h in spec['scn']['handlers']:
             if h['bus'] == bus and h['pat'] == ev[0]:
                 n = cnt.get((bus, h['name'], ev), 0)
+                if p.get('interrupted') and ev[0] == p['epat'] and n == 0:
+                    continue  # a handler of the interrupted event that had not started is cancelled, by design
                 if n != 1:
                     out.append(V('other_handler_or_event_affected', f'{bus}.{h["name"]} ran {n} times for {ev}', exc_type=typ))
     fin = res['final']['events']
     bad_name = f'h{p["pos"]}'
+    if p.get('interrupted'):
+        # the family is about a handler that HAD failed before the interruption came; schedules in which the interruption reaches it first are not judged
+        failed_first = any(x[2] == p['ebus'] and x[3] == bad_name and (x[5] == 'raised' or 'ret_exc' in p['kind']) and x[5] != 'cancelled' for x in tr.exits)
+        if not failed_first:
+            return out
     target = [ev for ev in fin if ev[0] == p['epat']]
     for ev in target:
         fe = fin[ev]
@@ -145,7 +164,7 @@ def oracle(spec, res):
                     out.append(V('error_result_is_not_the_raised_object', f'{ev}: result error is {r["err"]} ({r["errtype"]}), handler raised {exp}', exc_type=typ))
                 if r['value'] != 'None':
                     out.append(V('error_result_keeps_a_value', f'{ev}: {r}', exc_type=typ))
-            elif r['status'] != 'completed':
+            elif r['status'] != 'completed' and not (p.get('interrupted') and r['status'] == 'error'):  # (an interrupted sibling ends with the interruption's error)
                 out.append(V('other_handler_result_affected', f'{ev}: {r}', exc_type=typ))
     for ev, fe in fin.items():
         if fe['status'] != 'completed' or not fe['sig']:
